@@ -11,7 +11,9 @@ import (
 	"github.com/tink-crypto/tink-go/v2/jwt"
 	"github.com/tink-crypto/tink-go/v2/verifharness/internal/detrand"
 	"github.com/tink-crypto/tink-go/v2/verifharness/internal/evid"
+	"github.com/tink-crypto/tink-go/v2/verifharness/internal/gen"
 	"github.com/tink-crypto/tink-go/v2/verifharness/internal/ref/jwtref"
+	"github.com/tink-crypto/tink-go/v2/verifharness/internal/ref/sigref"
 )
 
 var allSkews = []time.Duration{0, 0, time.Second, time.Second, 59 * time.Second, 10 * time.Minute, 10 * time.Minute, 1, 500 * time.Millisecond, 10*time.Minute - 1}
@@ -364,7 +366,27 @@ func drawManipulation(rt *rapid.T, k *jkey, typ *string, payload []member) manip
 		"payload-not-object", "payload-claim-type", "payload-whitespace", "payload-duplicate", "payload-surrogate", "payload-big-number", "payload-fractional-time", "payload-exponent-time", "payload-deep", "payload-invalid-utf8", "payload-escaped-names",
 	}
 	kind := rapid.SampledFrom(kinds).Draw(rt, "manipulation")
+	if k.fam == "PS" && rapid.IntRange(0, 5).Draw(rt, "ps_salt_manipulation") == 0 {
+		kind = "ps-other-salt"
+	}
 	switch kind {
+	case "ps-other-salt":
+		// A well-formed RSASSA-PSS signature by the key itself over the untouched header and payload,
+		// but with a salt length other than the hash length RFC 7518 section 3.5 prescribes for PS*
+		// (0, 20, one off, the longest that fits). It is not a valid PSxxx signature: the strict
+		// reference refuses it, and "signature valid" is the first conjunct of the property.
+		hashName := "SHA" + k.alg[2:]
+		hLen := map[string]int{"SHA256": 32, "SHA384": 48, "SHA512": 64}[hashName]
+		r := k.mat.RSA
+		maxSalt := (r.N.BitLen()-1+7)/8 - hLen - 2
+		sLen := rapid.SampledFrom([]int{0, 0, 20, hLen - 1, hLen + 1, maxSalt, maxSalt}).Draw(rt, "ps_salt_len")
+		unsigned := h64 + "." + p64
+		em := sigref.PSSEncode(hashName, []byte(unsigned), gen.BytesN(rt, "ps_salt", sLen), r.N.BitLen())
+		sig := sigref.RSASP1(sigref.RSAPrivate{RSAPublic: sigref.RSAPublic{N: r.N, E: r.E}, D: r.D, P: r.Primes[0], Q: r.Primes[1]}, em)
+		if em == nil || sig == nil || sLen == hLen || !sigref.VerifyPSS(sigref.RSAPublic{N: r.N, E: r.E}, hashName, sLen, []byte(unsigned), sig) {
+			rt.Fatalf("harness: could not build a PSS signature with salt length %d for %v", sLen, k)
+		}
+		return manip{kind: kind, token: unsigned + "." + jwtref.B64Encode(sig), note: fmt.Sprintf("%s with salt length %d instead of %d", k.alg, sLen, hLen)}
 	case "untouched":
 		return manip{kind: "untouched", token: makeToken(rt, k, k.alg, h, b), note: h}
 	case "alg-none":
